@@ -10,7 +10,7 @@ import C18
 N = {"quick": 6000, "thorough": 200000}
 MODEL_OPS = {"KR", "KO", "KT", "LP", "LD", "SJ", "SD", "DS", "DP"}
 # the implementation-only streams: result -> is it a violation of the property?
-ORACLE_OK = {"RT": {"ok"}, "SB": {"ok"}, "FZ": {"error", "value"}, "AB": {"rejected"}, "SU": {"ok", "rejected-on-the-wire"}}
+ORACLE_OK = {"RT": {"ok"}, "RZ": {"ok"}, "MJ": {"rejected"}, "SB": {"ok"}, "FZ": {"error", "value"}, "AB": {"rejected"}, "SU": {"ok", "rejected-on-the-wire"}}
 
 
 def run(a):
